@@ -216,7 +216,7 @@ CLAIMS['C14'] = {
             'BaseValidator.signature are assumed contracts (the latter with the bounded stand-in of C04)',
 }
 CLAIMS['C20'] = {
-    'text': 'PjRpcMocker._match_request and PjRpcMocker.add proved against the abstract view patches(endpoint, version, '
+    'text': 'PjRpcMocker._match_request, add and replace proved against the abstract view patches(endpoint, version, '
             'method) = the list stored in the nested maps (tuple keys compared structurally): a patched method is answered by '
             'the FIRST patch of its queue, which then goes to the back of the queue - or is dropped if it is a `once` patch, '
             'the emptied queue being unregistered; the reply carries the request id (any int / str, also 0 and ""), the '
@@ -224,12 +224,16 @@ CLAIMS['C20'] = {
             'stored under calls[endpoint][(version, method)] and was called with exactly the params (positional / named / '
             'single); an unpatched method on a patched endpoint gets -32601 with nothing recorded or changed; add() appends '
             'the new patch last, keeps the earlier ones in order and leaves every other endpoint / method untouched '
-            '(whole-view postcondition). Frame: container contents only, no attribute of any pre-existing object.',
-    'note': 'not under contract: replace(), remove(), reset(), _on_request (pass-through / refusal of unpatched endpoints, '
+            '(whole-view postcondition); replace() puts the new patch at the given position of an existing queue (IndexError '
+            'exactly when there is none) and keeps the queue length; an EMPTY queue counts as unpatched (-32601); the only '
+            'exceptions that escape a request are those a patch callback raised. Frame: container contents only, no '
+            'attribute of any pre-existing object.',
+    'note': 'not under contract: remove(), reset(), _on_request (pass-through / refusal of unpatched endpoints, '
             'element-wise batches), start/stop patching. Assumed: the mocking package (MagicMock returns a new callable mock; '
             'calling it only records), callbacks may raise; representation invariant of the mocker (the outer map, the '
             'per-endpoint maps and the call records are distinct objects; stored queues are non-empty lists of well-formed '
-            'Match objects) is a precondition - established by add() for what it stores, not proved for replace/remove',
+            'Match objects) is a precondition - established by add() / replace() for what they store, not proved for remove(); that replace() '
+            'keeps the OTHER patches of the queue is not proved (solver timeout on the symbolic-position update)',
 }
 NOT_CLAIMED = {
     'C17': 'no contract within reach decides it: the documented parameter lists are produced by pydantic (create_model / '
